@@ -233,4 +233,110 @@ theorem versatiles_complete {K file fmt comp m} (v : ValidVersatiles K file fmt 
       subst hbb
       exact hc ((contains_iff b' x y hbx hby).2 ⟨d1, d2, d3, d4⟩)
 
+/-! ### advertised coverage contains every stored tile -/
+
+theorem liveBlocks_eq {l : List BlockDef} (hp : l.Pairwise (fun a b => ¬ (a.x = b.x ∧ a.y = b.y ∧ a.z = b.z))) :
+    liveBlocks l = l := by
+  induction l with
+  | nil => rfl
+  | cons b rest ih =>
+    rw [List.pairwise_cons] at hp
+    unfold liveBlocks
+    have : rest.any (fun c => c.x == b.x && c.y == b.y && c.z == b.z) = false := by
+      rw [Bool.eq_false_iff]
+      intro h
+      rw [List.any_eq_true] at h
+      obtain ⟨c, hc, hcc⟩ := h
+      simp only [Bool.and_eq_true, beq_iff_eq] at hcc
+      exact hp.1 c hc ⟨hcc.1.1.symm, hcc.1.2.symm, hcc.2.symm⟩
+    simp only [this, Bool.false_eq_true, if_false, ih hp.2]
+
+/-- box `a` lies inside box `b` -/
+def Within (a b : BBox) : Prop := b.xmin ≤ a.xmin ∧ a.xmax ≤ b.xmax ∧ b.ymin ≤ a.ymin ∧ a.ymax ≤ b.ymax
+
+/-- the bounding-box fold of `coverLevel` only grows and contains every folded block -/
+theorem fold_cover (z : Nat) : ∀ (fl : List BlockDef) (acc : Option BBox),
+    (∀ a, acc = some a → a.level = z) → (∀ b ∈ fl, b.z = z) →
+    (∀ a, acc = some a → ∃ box, fl.foldl (fun acc b => match acc with
+        | none => some b.global
+        | some a => some ⟨z, min a.xmin b.gxmin, min a.ymin b.gymin, max a.xmax b.gxmax, max a.ymax b.gymax⟩) acc = some box ∧
+        box.level = z ∧ Within a box) ∧
+    (∀ b ∈ fl, ∃ box, fl.foldl (fun acc b => match acc with
+        | none => some b.global
+        | some a => some ⟨z, min a.xmin b.gxmin, min a.ymin b.gymin, max a.xmax b.gxmax, max a.ymax b.gymax⟩) acc = some box ∧
+        box.level = z ∧ Within b.global box) := by
+  intro fl
+  induction fl with
+  | nil =>
+    intro acc hacc _
+    exact ⟨fun a ha => ⟨a, by simpa using ha, hacc a ha, ⟨Nat.le_refl _, Nat.le_refl _, Nat.le_refl _, Nat.le_refl _⟩⟩,
+      fun b hb => by cases hb⟩
+  | cons c rest ih =>
+    intro acc hacc hz
+    have hcz : c.z = z := hz c (by simp)
+    simp only [List.foldl_cons]
+    cases acc with
+    | none =>
+      have ⟨i1, i2⟩ := ih (some c.global) (by intro a ha; injection ha with ha; rw [← ha]; exact hcz)
+        (fun b hb => hz b (by simp [hb]))
+      refine ⟨fun a ha => (by cases ha), ?_⟩
+      intro b hb
+      cases hb with
+      | head => exact i1 c.global rfl
+      | tail _ hb => exact i2 b hb
+    | some a0 =>
+      have ⟨i1, i2⟩ := ih (some ⟨z, min a0.xmin c.gxmin, min a0.ymin c.gymin, max a0.xmax c.gxmax, max a0.ymax c.gymax⟩)
+        (by intro a ha; injection ha with ha; rw [← ha]) (fun b hb => hz b (by simp [hb]))
+      obtain ⟨box, hb1, hb2, hb3⟩ := i1 _ rfl
+      unfold Within at hb3
+      simp only at hb3
+      constructor
+      · intro a ha
+        injection ha with ha; subst ha
+        exact ⟨box, hb1, hb2, by unfold Within; omega⟩
+      · intro b hb
+        cases hb with
+        | head =>
+          refine ⟨box, hb1, hb2, ?_⟩
+          unfold Within
+          simp only [BlockDef.global]
+          omega
+        | tail _ hb => exact i2 b hb
+
+theorem coverLevel_contains (l : List BlockDef) (b : BlockDef) (hb : b ∈ l) :
+    ∃ box, coverLevel l b.z = some box ∧ box.level = b.z ∧ Within b.global box := by
+  unfold coverLevel
+  have hmem : b ∈ l.filter (fun c => c.z == b.z) := by simp [hb]
+  exact (fold_cover b.z _ none (fun a ha => by cases ha) (fun c hc => by simpa using (List.mem_filter.1 hc).2)).2 b hmem
+
+/-- **coverage ⊇ tiles (versatiles)**: every stored tile lies inside the advertised box of its level -/
+theorem cover_contains {K file fmt comp m} (v : ValidVersatiles K file fmt comp m) :
+    ∃ r, openReader K file = .ok r ∧
+      ∀ x y z blob, z ≤ 31 → m (x, y, z) = some blob →
+        ∃ box ∈ cover r.blocks, box.level = z ∧ box.contains2 x y = true := by
+  obtain ⟨h, blocks, h1, h2, h3, hm, ⟨c, raw, hb1, hb2, hb3⟩, huniq, hidx, hmap⟩ := v.ex
+  have hopen : openReader K file = .ok ⟨file, h, blocks, K⟩ := by
+    unfold openReader
+    simp only [h1, ok_bind]
+    by_cases hl : h.metaR.len > 0
+    · obtain ⟨mb, mraw, hm1, hm2⟩ := hm hl
+      simp only [hl, if_true, hm1, ok_bind, hm2, pure_eq, hb1, hb2, hb3]
+    · simp only [hl, if_false, pure_eq, ok_bind, hb1, hb2, hb3]
+  refine ⟨_, hopen, ?_⟩
+  intro x y z blob hz hmx
+  obtain ⟨b, hbm, hbx, hby, hbz, c1, c2, c3, c4, _⟩ := (hmap x y z blob).1 hmx
+  obtain ⟨box, hc1, hc2, hc3⟩ := coverLevel_contains blocks b hbm
+  refine ⟨box, ?_, by rw [hc2, hbz], ?_⟩
+  · show box ∈ cover blocks
+    unfold cover
+    rw [liveBlocks_eq huniq, List.mem_filterMap]
+    exact ⟨b.z, by rw [List.mem_range]; omega, hc1⟩
+  · have hcon := (contains_iff b x y hbx hby).2 ⟨c1, c2, c3, c4⟩
+    unfold Within at hc3
+    simp only [BlockDef.global, BlockDef.gxmin, BlockDef.gymin, BlockDef.gxmax, BlockDef.gymax] at hc3
+    simp only [BlockDef.global, BlockDef.gxmin, BlockDef.gymin, BlockDef.gxmax, BlockDef.gymax, BBox.contains2,
+      Bool.and_eq_true, decide_eq_true_eq] at hcon
+    simp only [BBox.contains2, Bool.and_eq_true, decide_eq_true_eq]
+    omega
+
 end VtProofs.VersatilesRead
